@@ -160,6 +160,16 @@ func (o sortPodByNodeName) Len() int      { return len(o) }
 func (o sortPodByNodeName) Swap(i, j int) { o[i], o[j] = o[j], o[i] }
 
 func (o sortPodByNodeName) Less(i, j int) bool {
+	// A Failed pod (kept only because its deletion is limited by the backoff) never wins over a pod that is not Failed,
+	// otherwise the healthy pod of the node would be deleted as the "duplicate".
+	if o[i].Status.Phase != corev1.PodFailed && o[j].Status.Phase == corev1.PodFailed {
+		return true
+	}
+
+	if o[i].Status.Phase == corev1.PodFailed && o[j].Status.Phase != corev1.PodFailed {
+		return false
+	}
+
 	// Scheduled Pod first
 	if len(o[i].Spec.NodeName) != 0 && len(o[j].Spec.NodeName) == 0 {
 		return true
